@@ -55,7 +55,17 @@ def parse_path(ps):
     out.append(cur); return tuple(out)
 
 # =================================================================================== C08
+DIRECTED_C08 = [     # unconditional (seventh round): a root that is defined both by an explicit set and through an attrpath cannot be overwritten or removed as a whole
+    ('{ a = { x = 1; }; a.b = 2; }\n', ('set', 'a', '5')), ('{ a = { x = 1; }; a.b = 2; }\n', ('rm', 'a')), ('{ a = { x = 1; }; a.b = 2; }\n', ('set', '@a', '5')),
+    ('{ a.b = 2; a = { x = 1; }; }\n', ('set', 'a', '5')), ('{ a.b = 2; a = { x = 1; }; }\n', ('rm', 'a')),
+    ('{\n  s = {\n    x = 1;\n  };\n  s.b.c = 2;\n  t = 1;\n}\n', ('set', 's', '5')), ('{\n  s = {\n    x = 1;\n  };\n  s.b.c = 2;\n  t = 1;\n}\n', ('rm', 's')),
+    ('{ pkgs }:\n{\n  a = {\n    x = 1;\n  };\n  a.b = 2;\n}\n', ('set', 'a', '5')), ('{ pkgs }:\n{\n  a = {\n    x = 1;\n  };\n  a.b = 2;\n}\n', ('rm', 'a')),
+]
 def run_C08():
+    for text, op in DIRECTED_C08:
+        a = parse(text); count('directed-refusal'); r = apply(a, op)
+        if r[0] == 'ok': bad('an edit that must be refused (the root is also defined through an attrpath) is accepted', doc=text, ops=[list(op)], out=r[1])
+        elif a.rebuild() != text: bad('a refused edit changed the document', doc=text, ops=[list(op)], out=a.rebuild())
     for it in range(N):
         text, meta = gen_doc(R, scoped=R.random() < 0.5, attrpath_nested=R.random() < 0.5, inherits=0.35)
         ops = []
